@@ -346,6 +346,7 @@ var budgetSec = 120
 // executions and a worker uses < 60 CPU-seconds (quick).
 var famMaxExecs = 3000
 var famCPUSec = 150.0
+var famCPUUsed float64 // CPU seconds this worker has spent on family scenarios
 
 func cpuSeconds() float64 {
 	var ru syscall.Rusage
@@ -354,6 +355,7 @@ func cpuSeconds() float64 {
 	}
 	return float64(ru.Utime.Sec+ru.Stime.Sec) + float64(ru.Utime.Usec+ru.Stime.Usec)/1e6
 }
+
 var debug = os.Getenv("C11_DEBUG") != ""
 
 // a shard is a batch of scenarios (the generated families have thousands of small ones)
@@ -370,9 +372,13 @@ func exploreOne(w *pool.W, sc scenario) {
 		return
 	}
 	t := findT(sc.Tmpl)
-	if t.Family != "" && cpuSeconds() > famCPUSec {
-		w.Emit(rec{Kind: "done", Scenario: sc, Stop: "worker-cpu-budget"})
-		return
+	if t.Family != "" {
+		if famCPUUsed > famCPUSec {
+			w.Emit(rec{Kind: "done", Scenario: sc, Stop: "worker-cpu-budget"})
+			return
+		}
+		t0 := cpuSeconds()
+		defer func() { famCPUUsed += cpuSeconds() - t0 }()
 	}
 	want := make([]resp, sc.N)
 	var solos []string
